@@ -57,8 +57,9 @@ type WorkerCfg struct {
 // Dec is one scheduler decision, interpreted against the moves enabled at that moment:
 // C selects the class of move (by fixed weights), I the move inside the class.
 type Dec struct {
-	C int `json:"c"`
-	I int `json:"i"`
+	C int  `json:"c"`
+	I int  `json:"i"`
+	P bool `json:"p,omitempty"` // a release of a Create/Delete applies the call and parks its reply
 }
 
 // Fault makes the At-th released storage call fail (1 = request lost, 2 = reply lost).
@@ -296,9 +297,10 @@ const (
 )
 
 type move struct {
-	class int
-	w     int // worker
-	n     int // name (lapse) / provider (shutdown)
+	class    int
+	w        int  // worker
+	n        int  // name (lapse) / provider (shutdown)
+	twoPhase bool // release: apply the call and park its reply
 }
 
 // class weights for a decision's C in 0..9
@@ -324,7 +326,7 @@ func (e *eng) enabled() map[int][]move {
 		}
 	}
 	for n := 0; n < e.c.Names; n++ {
-		if e.holders[n] == 0 && !unlocking[n] {
+		if e.holders[n] == 0 && !unlocking[n] && !e.acquiring(n) {
 			if _, err := e.inner.Get(context.Background(), e.key(n)); err == nil {
 				m[mLapse] = append(m[mLapse], move{class: mLapse, n: n})
 			}
@@ -346,7 +348,9 @@ func choose(m map[int][]move, d Dec, drain bool) (move, bool) {
 	if !drain {
 		cl := classOf[((d.C%10)+10)%10]
 		if len(m[cl]) > 0 {
-			return m[cl][((d.I%len(m[cl]))+len(m[cl]))%len(m[cl])], true
+			mv := m[cl][((d.I%len(m[cl]))+len(m[cl]))%len(m[cl])]
+			mv.twoPhase = d.P && cl == mRelease
+			return mv, true
 		}
 		order = []int{mRelease, mStart, mLapse, mCancel}
 	}
@@ -360,6 +364,17 @@ func choose(m map[int][]move, d Dec, drain bool) (move, bool) {
 		}
 	}
 	return move{}, false
+}
+
+// acquiring: a Create for lock n has been applied by the storage and its reply is parked: the record belongs to an
+// attempt that is about to succeed.
+func (e *eng) acquiring(n int) bool {
+	for _, w := range e.ws {
+		if p := e.g.PendingOf(w.idx); p != nil && p.Op == "reply:create" && p.Key == e.key(n) {
+			return true
+		}
+	}
+	return false
 }
 
 func (e *eng) parkedAttempts(prov int) int {
@@ -419,6 +434,13 @@ func (e *eng) apply(mv move) {
 	case mRelease:
 		p := e.g.PendingOf(mv.w)
 		out := gated.OK
+		if mv.twoPhase && (p.Op == "create" || p.Op == "delete") {
+			// the call is applied now, its reply stays parked: a schedule point between the storage's action and the caller seeing it
+			out = gated.Applied
+			e.mu.Lock()
+			e.info.class("reply_parked:" + p.Op)
+			e.mu.Unlock()
+		}
 		if k, ok := e.faultAt[e.g.Released]; ok && (p.Op == "create" || p.Op == "delete" || p.Op == "wait") {
 			out = gated.Outcome(k)
 			e.mu.Lock()
@@ -471,6 +493,9 @@ func (e *eng) apply(mv move) {
 			switch {
 			case w.running:
 				e.setViol("cancel-not-honoured", "worker %d: %s is still blocked after its context was cancelled (%s) and its pending storage call was let go", w.idx, kindName(w.cur.round.Kind), pos)
+			case w.lastOK && strings.HasPrefix(pos, "gate_before_reply:"):
+				// the storage had already created the record when the context ended: acquiring is fine (giving up is fine
+				// too, as long as nothing is left behind - checked at the end)
 			case w.lastOK:
 				e.setViol("acquired-although-cancelled", "worker %d: %s acquired the lock although its context had been cancelled while it was parked (%s)", w.idx, kindName(w.cur.round.Kind), pos)
 			case w.cur.round.Kind == KLockWithCtx && !errors.Is(w.lastErr, context.Canceled) && !(e.down[e.provOf(w)] && gerrors.Is(w.lastErr, gerrors.ErrClosed)):
@@ -525,7 +550,7 @@ func (e *eng) check() *vstat.Violation {
 		if e.faultsHit == 0 && e.lapses == 0 && e.holders[n] == 1 && !exists {
 			return vstat.V("holder-without-record", "a caller holds lock n%d but the lock record is not in the storage (no fault was injected)", n)
 		}
-		if e.c.Mode == "C04" && exists && e.holders[n] == 0 && !unlocking[n] {
+		if e.c.Mode == "C04" && exists && e.holders[n] == 0 && !unlocking[n] && !e.acquiring(n) {
 			return vstat.V("record-left-behind", "nobody holds lock n%d and no Unlock is in progress, but its record is still in the storage", n)
 		}
 	}
